@@ -1,7 +1,7 @@
 (** C19 - Unsatisfiable or malformed requests are refused with an error, never answered.
     Statements only; proofs in Proofs/PackingProofs.v, Proofs/CBLDMProofs.v, Proofs/MiscProofs.v
     (bin completion: Proofs/BCProofs.v, added to this file when available). *)
-From Prtpy Require Import Base.Prelude Model.Binner Model.Packing Model.CBLDM Proofs.PackingProofs Proofs.CBLDMProofs Proofs.MiscProofs.
+From Prtpy Require Import Base.Prelude Model.Binner Model.Packing Model.CBLDM Proofs.PackingProofs Proofs.CBLDMProofs Proofs.MiscProofs Model.BinCompletion Model.BinCompletionNamed Proofs.BCProofs Proofs.BCNamedProofs.
 
 (** first-fit (both managers): an error is returned exactly when some item, at any position and with any multiplicity, exceeds the bin size *)
 Theorem C19_ff_refuses_iff : forall (A : Type) (valueof : A -> Z) (keep : bool) (C : Z) (items : list A),
@@ -64,3 +64,13 @@ Theorem C19_sums_manager_refuses_numitems : forall (A : Type) (b : bins A) (i : 
 Proof. exact @numitems_sums_refused. Qed.
 Print Assumptions C19_sums_manager_refuses_numitems.
 
+(** bin completion (value level and on named items): ValueError iff some item exceeds the bin size *)
+Theorem C19_bc_refuses_iff : forall (keep : bool) (C : Z) (fuel : nat) (items : list Z),
+  bin_completion keep C fuel items = Err ValueError <-> Exists (fun v : Z => C < v) items.
+Proof. exact bc_error_iff. Qed.
+Print Assumptions C19_bc_refuses_iff.
+
+Theorem C19_bc_named_refuses_iff : forall (A : Type) (valueof : A -> Z) (keep : bool) (C : Z) (fuel : nat) (items : list A),
+  bin_completion_named valueof keep C fuel items = Err ValueError <-> Exists (fun x : A => C < valueof x) items.
+Proof. exact @bc_named_error_iff. Qed.
+Print Assumptions C19_bc_named_refuses_iff.
